@@ -47,7 +47,7 @@ func VerifyAttestationSignatures(
 	publicKeys []types.Attester,
 	signatureThreshold uint32,
 ) error {
-	if uint32(len(attestation)) != types.SignatureLength*signatureThreshold {
+	if len(attestation) != types.SignatureLength*int(signatureThreshold) {
 		return sdkerrors.Wrap(types.ErrSignatureVerification, "invalid attestation length")
 	}
 
@@ -61,7 +61,8 @@ func VerifyAttestationSignatures(
 	digest := crypto.Keccak256(message)
 
 	for i := uint32(0); i < signatureThreshold; i++ {
-		signature := attestation[i*types.SignatureLength : (i*types.SignatureLength)+types.SignatureLength]
+		start := int(i) * types.SignatureLength
+		signature := attestation[start : start+types.SignatureLength]
 
 		// The go-ethereum library assumes that the v-value of a secp256k1
 		// signature is either 0 or 1. However, in legacy Bitcoin signers, this
